@@ -6,6 +6,7 @@ package main
 import (
 	"fmt"
 	"go/ast"
+	"go/constant"
 	"go/parser"
 	"go/token"
 	"go/types"
@@ -344,6 +345,7 @@ func checkC13(ctx *Ctx, r *Report) {
 	c13NilTestExcludesConstantRefs(ctx, r, ts, recEquality.define)
 	c13NumericUnionBranches(ctx, r, ts)
 	c13FourthHunt(ctx, r, ts, ifChain(top))
+	c13FifthHunt(ctx, r, ts, true)
 	for i, b := range ifChain(top) {
 		if b.cond == nil {
 			continue
@@ -2015,4 +2017,243 @@ func c08FifthHunt(ctx *Ctx, r *Report, ts *tmplSet) {
 	}
 	r.Count("hunted clauses of validation and strict decoding (5th hunt)", n)
 	r.Floor("hunted clauses of validation and strict decoding (5th hunt)", 5)
+}
+
+// c13FifthHunt — fifth hunt of C13:
+//   - the Go type formatter declares an enum with the type of its members whatever its nullability (`type Color
+//     string`): the only pointer a reference to an enum that accepts null goes through is its own. What tells the
+//     templates that a reference is "held through a named nullable type" (languages.Context.ResolveNullableAlias, the
+//     `$resolved.Nullable` sub-branch of the scalar/enum leaf of the equality template) has to leave enums out;
+//   - the templates call the standard packages by name and the import map binds one package per name: the name every
+//     standard package is imported under (read from the `importStdPkg` actions of the templates and from the literal
+//     calls to the import map) has to be in the list formatImportAlias consults, and every schema package has to be
+//     imported through formatImportAlias;
+//   - (finding) the float leaves are compared with `!=`: -0.0 and 0.0 are equal and are encoded `-0` and `0`.
+func c13FifthHunt(ctx *Ctx, r *Report, ts *tmplSet, floats bool) {
+	n := 0
+	p := ctx.Pkg("internal/jennies/golang")
+	if p == nil {
+		r.Undecided("anchor lost: internal/jennies/golang")
+		return
+	}
+	info := p.TypesInfo
+	// (a)
+	enumIgnoresNullability := false
+	if fd, _ := ctx.DeclOf(ctx.LookupMethod("internal/jennies/golang", "typeFormatter", "formatEnumDef")); fd == nil {
+		r.Undecided("anchor lost: golang.typeFormatter.formatEnumDef")
+	} else {
+		enumIgnoresNullability = true
+		ast.Inspect(fd.Body, func(m ast.Node) bool {
+			if sel, ok := m.(*ast.SelectorExpr); ok && sel.Sel.Name == "Nullable" {
+				enumIgnoresNullability = false
+			}
+			return true
+		})
+	}
+	if enumIgnoresNullability {
+		if fd, lp := ctx.DeclOf(ctx.LookupMethod("internal/languages", "Context", "ResolveNullableAlias")); fd == nil {
+			r.Undecided("anchor lost: languages.Context.ResolveNullableAlias")
+		} else {
+			_ = lp
+			// every `return` of a nullable type found on the way is guarded by a condition that leaves enums out
+			ok, seen := true, 0
+			parents := parentMap(fd)
+			ast.Inspect(fd.Body, func(m ast.Node) bool {
+				ret, isRet := m.(*ast.ReturnStmt)
+				if !isRet || len(ret.Results) != 1 {
+					return true
+				}
+				if _, zero := ast.Unparen(ret.Results[0]).(*ast.CompositeLit); zero {
+					return true
+				}
+				seen++
+				guarded := false
+				for q := parents[m]; q != nil; q = parents[q] {
+					if is, isIf := q.(*ast.IfStmt); isIf && strings.Contains(exprString(is.Cond), "Nullable") && strings.Contains(exprString(is.Cond), "IsEnum") {
+						guarded = true
+					}
+				}
+				if !guarded {
+					ok = false
+				}
+				return true
+			})
+			n++
+			r.Check(ok && seen > 0, "skeleton/go-nullable-enum-not-a-pointer", "languages.ResolveNullableAlias answers for an enum that accepts null", fd.Pos(), "enums are left out: they are declared with the type of their members",
+				"ResolveNullableAlias answers `held through the nullable type of the object referred to` for an enum that accepts null, which Go declares `type Color string`: Equals of `Obj{color: $ref Color}` with Color `enum: [red, green, null]` tests `(*resource.Color) == nil` and compares `*(*resource.Color)` — mismatched types Color and untyped nil, the package does not compile")
+		}
+		tree := ts.trees[recEquality.define]
+		if tree == nil {
+			r.Undecided("anchor lost: template %s", recEquality.define)
+		} else {
+			ok, seen := true, 0
+			walkTmpl(tree.Root, func(m parse.Node) bool {
+				in, isIf := m.(*parse.IfNode)
+				if !isIf || in.Pipe == nil {
+					return true
+				}
+				c := in.Pipe.String()
+				if strings.Contains(c, "$resolved.Nullable") {
+					seen++
+					if !strings.Contains(c, "not $resolved.IsEnum") {
+						ok = false
+					}
+				}
+				return true
+			})
+			n++
+			r.Check(ok && seen > 0, "skeleton/go-nullable-enum-not-a-pointer", "type_equality_check compares a reference to a named nullable scalar", token.NoPos, "the test leaves enums out",
+				"the scalar/enum leaf of type_equality_check takes a reference that resolves to a nullable type for a named pointer (`type MaybeStr *string`) and compares `*a != *b` after a nil test; an enum that accepts null is declared `type Color string`: `*resource.Color == nil` does not compile")
+		}
+	}
+	// (b)
+	needed := map[string]string{} // name → where it is imported
+	for _, name := range ts.names() {
+		walkTmpl(ts.trees[name].Root, func(m parse.Node) bool {
+			c, ok := m.(*parse.CommandNode)
+			if !ok || len(c.Args) != 2 {
+				return true
+			}
+			id, ok := c.Args[0].(*parse.IdentifierNode)
+			if !ok || id.Ident != "importStdPkg" {
+				return true
+			}
+			if s, ok := c.Args[1].(*parse.StringNode); ok {
+				needed[s.Text[strings.LastIndex(s.Text, "/")+1:]] = ts.file[name]
+			}
+			return true
+		})
+	}
+	var mappers []*ast.CallExpr
+	for _, f := range p.Syntax {
+		ast.Inspect(f, func(m ast.Node) bool {
+			c, ok := m.(*ast.CallExpr)
+			if !ok || len(c.Args) != 2 {
+				return true
+			}
+			fn := callee(info, c)
+			if fn == nil || fn.Name() != "Add" || fn.Pkg() == nil || !strings.HasSuffix(fn.Pkg().Path(), "internal/jennies/common") {
+				return true
+			}
+			if tv, ok := info.Types[c.Args[0]]; ok && tv.Value != nil && tv.Value.Kind() == constant.String {
+				needed[constant.StringVal(tv.Value)] = ctx.Pos(c.Pos())
+				return true
+			}
+			if pc, ok := ast.Unparen(c.Args[1]).(*ast.CallExpr); ok {
+				if pf := callee(info, pc); pf != nil && pf.Name() == "importPath" && c13ImportMapIsPrinted(info, f, c) {
+					mappers = append(mappers, c)
+				}
+			}
+			return true
+		})
+	}
+	reserved := map[string]bool{}
+	var aliasFn *types.Func
+	if fn := ctx.LookupFunc("internal/jennies/golang", "formatImportAlias"); fn != nil {
+		aliasFn = fn
+		if fd, _ := ctx.DeclOf(fn); fd != nil {
+			ast.Inspect(fd.Body, func(m ast.Node) bool {
+				c, ok := m.(*ast.CallExpr)
+				if !ok {
+					return true
+				}
+				if g := callee(info, c); g != nil && g.Pkg() == p.Types {
+					if gd, _ := ctx.DeclOf(g); gd != nil {
+						ast.Inspect(gd.Body, func(q ast.Node) bool {
+							if cc, ok := q.(*ast.CaseClause); ok {
+								for _, e := range cc.List {
+									if tv, ok := info.Types[e]; ok && tv.Value != nil && tv.Value.Kind() == constant.String {
+										reserved[constant.StringVal(tv.Value)] = true
+									}
+								}
+							}
+							return true
+						})
+					}
+				}
+				return true
+			})
+		}
+	}
+	var names []string
+	for name := range needed {
+		names = append(names, name)
+	}
+	sort.Strings(names)
+	for _, name := range names {
+		n++
+		r.Check(reserved[name], "kinds/go-schema-packages-spare-standard-imports", "golang imports the standard package "+name, token.NoPos, "a schema package of that name is imported under another one (formatImportAlias)",
+			fmt.Sprintf("the generated Go code imports the standard package %q under its own name (%s) and calls it by that name; the import map binds one package per name and formatImportAlias does not set a schema package called %q apart: next to `package %s; #Mirror: {…}`, the import of the standard library replaces the one of the schema package and `%s.Mirror` is undefined", name, needed[name], name, name, name))
+	}
+	r.Count("standard packages imported by the Go output", len(names))
+	r.Floor("standard packages imported by the Go output", 6)
+	for _, c := range mappers {
+		through := false
+		if ac, ok := ast.Unparen(c.Args[0]).(*ast.CallExpr); ok {
+			if f := callee(info, ac); f != nil && f == aliasFn {
+				through = true
+			}
+		}
+		n++
+		r.Check(through, "kinds/go-schema-packages-spare-standard-imports", "golang."+c13FuncName(enclosingFuncDecl(p, c.Pos()))+" imports a schema package", c.Pos(), "under the name formatImportAlias gives",
+			"a schema package is imported under its own name: when it is called like a standard package the generated code imports (reflect, errors, fmt, …) the two imports take the same name, the last one wins and the references already written point into the wrong package")
+	}
+	r.Count("imports of schema packages (Go)", len(mappers))
+	r.Floor("imports of schema packages (Go)", 3)
+	// (c)
+	if tree := ts.trees[recEquality.define]; tree != nil && floats {
+		full := tmplTextFull(tree.Root)
+		n++
+		r.Check(strings.Contains(full, "Signbit") || strings.Contains(full, "Float64bits") || strings.Contains(full, "Float32bits"), "skeleton/go-float-equality-follows-encoding", "type_equality_check compares float leaves", token.NoPos, "the sign of zero is compared too",
+			"every scalar leaf is compared with `!=`, floats included: decode(`{\"f\":-0.0}`).Equals(decode(`{\"f\":0}`)) is true in both directions and json.Marshal writes {\"f\":-0} and {\"f\":0}")
+	}
+	r.Count("hunted clauses of the equality rules (5th hunt)", n)
+	r.Floor("hunted clauses of the equality rules (5th hunt)", 11)
+}
+
+func c13FuncName(fd *ast.FuncDecl) string {
+	if fd == nil {
+		return "?"
+	}
+	if fd.Recv != nil && len(fd.Recv.List) == 1 {
+		return strings.TrimPrefix(exprString(fd.Recv.List[0].Type), "*") + "." + fd.Name.Name
+	}
+	return fd.Name.Name
+}
+
+// c13ImportMapIsPrinted: the import map `m` of `m.Add(…)` is printed (`m.String()`) or handed to a template
+// (`"Imports": m`): the converter keeps a map it never prints to name the types it writes in the code it emits
+// as text — the imports of that code are the user's.
+func c13ImportMapIsPrinted(info *types.Info, file *ast.File, add *ast.CallExpr) bool {
+	sel, ok := ast.Unparen(add.Fun).(*ast.SelectorExpr)
+	if !ok {
+		return true
+	}
+	id, ok := ast.Unparen(sel.X).(*ast.Ident)
+	if !ok {
+		return true
+	}
+	obj := info.Uses[id]
+	if obj == nil {
+		return true
+	}
+	printed := false
+	ast.Inspect(file, func(m ast.Node) bool {
+		switch x := m.(type) {
+		case *ast.CallExpr:
+			// m.String()
+			if s, ok := ast.Unparen(x.Fun).(*ast.SelectorExpr); ok && s.Sel.Name == "String" {
+				if r, ok := ast.Unparen(s.X).(*ast.Ident); ok && info.Uses[r] == obj {
+					printed = true
+				}
+			}
+		case *ast.KeyValueExpr:
+			// "Imports": m — handed to a template
+			if r, ok := ast.Unparen(x.Value).(*ast.Ident); ok && info.Uses[r] == obj {
+				printed = true
+			}
+		}
+		return true
+	})
+	return printed
 }
